@@ -326,6 +326,11 @@ func (k *Keyed[K, V]) resetRoutineLocked(key K, conds ...func(K, V) bool) (exist
 		// not started now: a later start must still wait for the previous instance to exit.
 		v.exitedCh = prevExitedCh
 	}
+	if v.exitedCh == nil {
+		// start() did not start anything (the constructor returned no routine):
+		// a later start must still wait for the previous instance to exit.
+		v.exitedCh = prevExitedCh
+	}
 
 	return true, true
 }
